@@ -1,5 +1,5 @@
 ------------------------------ MODULE MCStats ------------------------------
-(* C10 on the model: streams of up to MaxMsgs messages over 11 representative *)
+(* C10 on the model: streams of up to MaxMsgs messages over 12 representative *)
 (* headers (every bucket, the NONE ECU, id sharing, verbose / non-verbose),  *)
 (* every split into up to 3 parts at message boundaries, every order and     *)
 (* grouping of merging the parts.                                            *)
@@ -18,6 +18,7 @@ Headers == <<
   [ecu |-> Some(IE), ext |-> X(<<0, 2>>, IB, ID, TRUE)],        \* error
   [ecu |-> None,     ext |-> X(<<0, 3>>, IA, IC, TRUE)],        \* warn
   [ecu |-> Some(IE), ext |-> X(<<0, 5>>, IA, IC, FALSE)],       \* debug
+  [ecu |-> Some(<<69, 32>>), ext |-> X(<<0, 4>>, <<65, 32>>, IC, TRUE)],   \* ids "E " and "A ": differ from "E" / "A" only by a trailing blank - distinct ids
   [ecu |-> None,     ext |-> None] >>                           \* no extended header
 VARIABLES stage, hs, bag
 vars == <<stage, hs, bag>>
